@@ -461,6 +461,7 @@ theorem ack_dup_facts {s s' : Sender ℚ} {x : AckIn ℚ} {outs : List (Tx ℚ)}
     s'.next_seq = s.next_seq ∧
     (outs = [] ∨ outs = [{ seq := s.last_ack, size := s.mss, stamp := s.now, kind := .resend }]) := by
   cases hc with
+  | stale hlt _ _ => omega
   | early _ _ e1 e2 => subst e1; exact ⟨rfl, rfl, rfl, rfl, rfl, rfl, Or.inl e2⟩
   | dup c S _ _ _ _ _ e1 e2 _ =>
     subst e1
@@ -482,6 +483,7 @@ theorem tdecr_ack {l' : Loop ℚ} {ts : List ℚ} (h : TInv n L) (hs : L.l.step 
     left
     have hla : s'.last_ack = x.ackno ∧ s'.next_seq = L.l.snd.next_seq := by
       cases hcase with
+      | stale hlt _ _ => exact absurd hlt (Nat.not_lt.mpr g.ge)
       | early e _ _ _ => exact absurd e hdup
       | dup _ _ e _ _ _ _ _ _ _ => exact absurd e hdup
       | new T S _ e1 _ _ _ => subst e1; exact ⟨rfl, rfl⟩
